@@ -133,6 +133,9 @@ def contracts():
             && d.identifiers@.len() == self.identifiers@.len()
             && (forall|i: int| 0 <= i < d.identifiers@.len() ==> (#[trigger] d.identifiers@[i])@ == self.identifiers@[i].value@)
             && envmap(d.env) == proc_env().union_prefer_right(envmap(self.env))
+            // (the two paths handed to the hooks are the paths of the certificate's files, as the storage layer computes them)
+            && d.certificate_path@ == file_path_spec(self.file_manager, FileType::Certificate)
+            && d.private_key_path@ == file_path_spec(self.file_manager, FileType::PrivateKey)
             && final(w).fs.events == old(w).fs.events.push(FsEvent::Hook { ty: crate::hooks::hook_type_id(HookType::PostOperation), data: crate::hooks::hook_data_id(d), ok: true }), //@C07.post_operation_data_reports_status,C10.post_operation_hook_data
 """, rewrites=[("T-MAP", r"env: HashMap::new\(\)", "env: crate::venv::new_map()"),
                ("T-ITER", r"self\s*\.identifiers\s*\.iter\(\)\s*\.map\(\|d\| d\.value\.to_owned\(\)\)\s*\.collect::<Vec<String>>\(\)", "crate::certificate::collect_values(&self.identifiers)")],
